@@ -257,6 +257,22 @@ func (cl *cluster) apply(ev string) {
 				m.Actions = nil
 			}
 		}
+	case "AddB":
+		// first half of AddReplica: admission check under the lock, then parked inside factory.Create (unlocked)
+		i := atoi(f[1])
+		cl.nAdds++
+		cl.adds[i] = cl.startTask("add", i, func() error { return c.AddReplica(addr(i)) })
+		cl.observe("%s -> done=%v err=%v", ev, cl.adds[i].done, cl.adds[i].err != nil)
+	case "AddF":
+		// second half: create the backend, re-take the lock, attach
+		i := atoi(f[1])
+		t := cl.adds[i]
+		for k := 0; k < 3 && !t.done; k++ {
+			cl.stepTask(t)
+		}
+		cl.observe("%s -> done=%v err=%v", ev, t.done, t.err != nil)
+		cl.terr(ev, t.err)
+		delete(cl.adds, i)
 	case "Sync":
 		i := atoi(f[1])
 		b := cl.attachedBE(i)
